@@ -20,6 +20,7 @@ class MemFS:
         self.ntemp = 0
         self.open_handles = 0
         self.mutations = 0
+        self.wbuf = 0            # write-buffer size of handles (0 = none)
 
     def mutated(self, what, path):
         self.mutations += 1
@@ -31,6 +32,13 @@ class MemFS:
 
 
 class MemFile:
+    """An open handle.  It refers to the file's content object (the "inode"),
+    not to the path: after a rename, writes through the handle land in the
+    renamed file; after an unlink they go nowhere visible.  With fs.wbuf > 0
+    the handle buffers writes like io.BufferedWriter does: data reaches the
+    file (= becomes visible in the directory, survives a crash) when the
+    buffer fills, on seek(), flush() and close()."""
+
     def __init__(self, fs, path, mode, owner=None):
         self.fs = fs
         self.name = path
@@ -38,6 +46,8 @@ class MemFile:
         self.pos = 0
         self.closed = False
         self.writes = []
+        self._pending = []       # buffered (offset, bytes)
+        self._npending = 0
         fs.open_handles += 1
         if 'w' in mode:
             if path in fs.special:
@@ -53,6 +63,34 @@ class MemFile:
             if path not in fs.files:
                 fs.open_handles -= 1
                 raise FileNotFoundError(2, 'No such file', path)
+        self.buf = fs.files[path]
+
+    def _path_now(self):
+        """the path under which this handle's content is visible now"""
+        fs = self.fs
+        if fs.files.get(self.name) is self.buf:
+            return self.name
+        for p, b in fs.files.items():
+            if b is self.buf:
+                return p
+        return None
+
+    def _apply(self, off, data):
+        buf = self.buf
+        if self.fifo:
+            buf += data
+        else:
+            if off > len(buf):
+                buf += b'\0' * (off - len(buf))
+            buf[off:off + len(data)] = data
+        p = self._path_now()
+        if p is not None:
+            self.fs.mutated('write', p)
+
+    def _flush(self):
+        pend, self._pending, self._npending = self._pending, [], 0
+        for off, data in pend:
+            self._apply(off, data)
 
     def _pt(self, what):
         fs = self.fs
@@ -65,9 +103,7 @@ class MemFile:
         self._pt('read')
         if self.closed:
             raise ValueError('I/O operation on closed file.')
-        buf = self.fs.files.get(self.name)
-        if buf is None:
-            return b''
+        buf = self.buf
         if n is None or n < 0:
             n = len(buf) - self.pos
         out = bytes(buf[self.pos:self.pos + n])
@@ -80,30 +116,32 @@ class MemFile:
         if self.closed:
             raise ValueError('I/O operation on closed file.')
         fs = self.fs
-        buf = fs.files.get(self.name)
-        if buf is None:
-            # file unlinked while open: writes go nowhere visible
-            buf = bytearray()
+        data = bytes(data)
         if self.fifo:
-            off = len(buf)
-            buf += data
+            off = len(self.buf) + self._npending
         else:
             off = self.pos
-            if off > len(buf):
-                buf += b'\0' * (off - len(buf))
-            buf[off:off + len(data)] = data
             self.pos = off + len(data)
         self.writes.append((off, len(data)))
         fs.trace.ev('fs.write', path=self.name, off=off, n=len(data),
                     fifo=self.fifo)
-        fs.mutated('write', self.name)
+        wbuf = getattr(fs, 'wbuf', 0)
+        if wbuf and len(data) < wbuf:
+            self._pending.append((off, data))
+            self._npending += len(data)
+            if self._npending >= wbuf:
+                self._flush()
+        else:
+            self._flush()
+            self._apply(off, data)
         return len(data)
 
     def seek(self, where, whence=0):
         if self.fifo:
             raise io.UnsupportedOperation('seek on fifo')
         self._pt('seek')
-        buf = self.fs.files.get(self.name, b'')
+        self._flush()
+        buf = self.buf
         if whence == 0:
             self.pos = where
         elif whence == 1:
@@ -127,24 +165,29 @@ class MemFile:
         raise io.UnsupportedOperation('fileno')
 
     def truncate(self, size=None):
-        buf = self.fs.files[self.name]
+        self._flush()
+        buf = self.buf
         size = self.pos if size is None else size
         if size < len(buf):
             del buf[size:]
         else:
             buf += b'\0' * (size - len(buf))
-        self.fs.mutated('truncate', self.name)
+        p = self._path_now()
+        if p is not None:
+            self.fs.mutated('truncate', p)
 
     def close(self):
         if self.closed:
             return
+        # a failing close() loses what was still buffered (before-effect)
         self._pt('close')
+        self._flush()
         self.closed = True
         self.fs.open_handles -= 1
         self.fs.trace.ev('fs.close', path=self.name)
 
     def flush(self):
-        pass
+        self._flush()
 
     def __enter__(self):
         return self
